@@ -95,6 +95,11 @@ CHECKS["C12"] = ("model_checking",
     "For each of the 18 estimators (1-3 configurations) all histories up to depth 2 (quick) / 3 (thorough) over the alphabet fit(X1), fit(X2 other shape), fit(X3 same shape), fit_predict, predict, predict_proba, score, set_params(several), path (sparse), clone are replayed on fresh real objects; states are deduplicated by (class, hyperparameters, digest of all fitted attributes incl. optimiser state). In every state: history;fit(X1) equals a fresh estimator's fit(X1) on every attribute bitwise, same for clone and for path, caller arrays are bit-identical and writeable, hyperparameters change only through set_params, get_params/set_params/clone round-trip. A second explorer repeats fits/paths of same-shaped data sets in a different order in a fresh interpreter to expose module-level state.",
     "Depth-bounded; merged states have the same futures because public methods only read hyperparameters and fitted attributes.",
     "5/C12")
+CHECKS["C16"] = ("exploration",
+    "bounded-exhaustive enumeration of a hand-written hyperparameter domain table (one deviation from a valid base), all small group lists, malformed data menu and calls before fit, on the real estimators/functions with an optimiser-step counter",
+    "For every constructor hyperparameter of the 18 estimators, of the GEMINI constructors, add_mlcl_constraint, print_kauri_tree and the 5 data functions, a probe menu of in-domain values (must be accepted) and out-of-domain values (just outside each interval end, 0, -1, None, wrong types) is applied with exactly one deviation from a valid base: out-of-domain must raise a ValueError/TypeError-family error before any optimiser step and leave no labels_. ALL lists of up to 3 non-empty groups over {-1..3} for d=3 (overlap, out of range, partial, full), the 2*min_samples_leaf vs min_samples_split grid, a malformed-data menu on all estimators and all public calls before fit complete it.",
+    "Ambiguous values (bool for int, numpy scalars, lists where arrays are documented) are not probed.",
+    "5/C16")
 NOT_APPLICABLE = {}
 
 def main():
